@@ -18,7 +18,7 @@ Not decided: that refinement converges and to what accuracy (numerical);
 import ast
 
 from ..flow import MustFlow
-from ..model import Program, walk_own, is_self_attr, dotted
+from ..model import Program, walk_own, is_self_attr, dotted, inline_temporaries, single_def
 from ..report import AnalysisError
 from .. import stagger
 from ..slices import Affine
@@ -80,6 +80,70 @@ def _guards_of(root, node):
     return out
 
 
+def _get_refined_sources(gr):
+    """Every element that reaches `newpoints` (the list the refined contour is built from) is the
+    result of self.refinePoint applied to a point of self.points, and all points are covered:
+    either first / interior loop / last appends, or one comprehension over the whole point list.
+    A value that reaches the list without going through refinePoint is a violation; a
+    construction this function does not model is reported as such (undecided)."""
+    mod, fnode = gr.module, gr.node
+
+    def is_refine(c):
+        return isinstance(c, ast.Call) and T(mod, c.func) == "self.refinePoint" and c.args
+
+    def res(e):
+        return T(mod, inline_temporaries(fnode, e))
+
+    sources = []  # (expression that lands in newpoints, first-argument description)
+    for n in walk_own(fnode):
+        if isinstance(n, ast.Assign) and len(n.targets) == 1 and isinstance(n.targets[0], ast.Name) and n.targets[0].id == "newpoints":
+            v = n.value
+            if isinstance(v, ast.List):
+                sources += [(e, None) for e in v.elts]
+            elif isinstance(v, ast.ListComp) and len(v.generators) == 1 and not v.generators[0].ifs:
+                g = v.generators[0]
+                it = inline_temporaries(fnode, g.iter)
+                if isinstance(it, ast.Call) and T(mod, it.func) == "zip" and it.args:
+                    first_iter = res(it.args[0])
+                    first_var = g.target.elts[0] if isinstance(g.target, ast.Tuple) else None
+                else:
+                    first_iter, first_var = T(mod, it), g.target
+                cover = "all" if first_iter == "self.points" and is_refine(v.elt) and isinstance(first_var, ast.Name) and isinstance(v.elt.args[0], ast.Name) \
+                    and v.elt.args[0].id == first_var.id else "unmodelled comprehension over %s" % first_iter
+                sources.append((v.elt, cover))
+            else:
+                return False, "unmodelled construction of newpoints: %s" % T(mod, v)[:60]
+        elif isinstance(n, ast.Call) and T(mod, n.func) == "newpoints.append" and n.args:
+            sources.append((n.args[0], None))
+        elif isinstance(n, ast.Call) and T(mod, n.func) in ("newpoints.extend", "newpoints.insert"):
+            return False, "unmodelled construction of newpoints: %s" % T(mod, n)[:60]
+    if not sources:
+        return False, "unmodelled construction of newpoints: no element source found"
+    raw = [T(mod, e)[:50] for e, c in sources if not is_refine(e)]
+    if raw:
+        return False, "reaches the refined contour without refinePoint: %s" % "; ".join(raw)
+    covers = set()
+    loops = {id(x): n for n in walk_own(fnode) if isinstance(n, ast.For) for x in ast.walk(n)}
+    for e, c in sources:
+        if c is not None:
+            covers.add(c)
+            continue
+        a0 = res(e.args[0])
+        if a0 in ("self.points[0]", "self.points[-1]"):
+            covers.add(a0)
+        else:
+            lp = loops.get(id(e))
+            it = inline_temporaries(fnode, lp.iter) if lp is not None else None
+            if it is not None and isinstance(it, ast.Call) and T(mod, it.func) == "enumerate" and it.args:
+                it = inline_temporaries(fnode, it.args[0])
+            covers.add("interior" if it is not None and T(mod, it) == "self.points[1:-1]" else "unmodelled source %s" % a0)
+    bad = [c for c in covers if c.startswith("unmodelled")]
+    if bad:
+        return False, "; ".join(bad)
+    ok = covers == {"all"} or covers == {"self.points[0]", "interior", "self.points[-1]"}
+    return ok, "covered: %s" % ", ".join(sorted(covers))
+
+
 def refine_point_exits(prog, rep):
     """exits of PsiContour.refinePoint: the input point is handed back unrefined only when the
     contour has no psi value at all (`self.psival is None`); every other exit returns what a
@@ -98,7 +162,8 @@ def refine_point_exits(prog, rep):
             rep.ob("R1", "refinePoint returns its input unrefined only for a contour without a psi value (`self.psival is None`)", ok, f.site(r),
                    "guard: %s" % (T(mod, g[-1][0]) if g else "none"), key="typestate/refinePoint/unrefined-exit")
         else:
-            ok = isinstance(r.value, ast.Call) and isinstance(r.value.func, ast.Subscript) and T(mod, r.value.func.value) == "available_methods"
+            fn = inline_temporaries(f.node, r.value.func, keep=("available_methods",)) if isinstance(r.value, ast.Call) else None
+            ok = isinstance(fn, ast.Subscript) and T(mod, fn.value) == "available_methods"
             rep.ob("R1", "refinePoint's other exits return the result of a refinement method", ok, f.site(r), T(mod, r.value)[:80], key="typestate/refinePoint/method-exit")
     rep.floor("R1.refinePoint-exits", len(rets), 2)
     # truthiness of psival anywhere in the package
@@ -134,9 +199,8 @@ def r1(prog, rep):
     ok = K("new=self.getRefined(*args,**kwargs)") in T(ref.module, ref.node) and K("self.points=new.points") in T(ref.module, ref.node)
     rep.ob("R1", "PsiContour.refine replaces the points by their refined positions", ok, ref.site(), "", key="typestate/refine")
     gr = prog.func(EQ, "PsiContour.getRefined")
-    n_ref = sum(1 for n in ast.walk(gr.node) if isinstance(n, ast.Call) and T(gr.module, n.func) == "self.refinePoint")
-    appends = sum(1 for n in ast.walk(gr.node) if isinstance(n, ast.Call) and T(gr.module, n.func) == "newpoints.append")
-    rep.ob("R1", "getRefined passes every point (first, interior, last) through refinePoint", n_ref == 3 and appends == 3, gr.site(), "%d refinePoint calls, %d appends" % (n_ref, appends), key="typestate/getRefined")
+    ok, detail = _get_refined_sources(gr)
+    rep.ob("R1", "getRefined passes every point (first, interior, last) through refinePoint", ok, gr.site(), detail, key="typestate/getRefined")
     refine_point_exits(prog, rep)
     names = ["MeshRegion.__init__", "MeshRegion.addPointAtWallToContours", "MeshRegion.distributePointsNonorthogonal"]
     summaries = {"self.addPointAtWallToContours": True, "self.distributePointsNonorthogonal": True}
@@ -263,22 +327,22 @@ def r2_r3(prog, rep):
                         b = b.value
     gb = prog.func(MESH, "MeshRegion.getRZBoundary")
     rep.ob("R3", "the position arrays of a region are written only by the fill and the shared-edge copy", writers <= {f.qualname, gb.qualname}, MESH, str(sorted(writers)), key="writers")
-    # boundary copy
+    # boundary copy (control flow normalised: guard clause / nested if, unrolled literal loops)
+    from ..stores import effects
     copies = []
-    guard = None
-    for s in gb.node.body:
-        if isinstance(s, ast.If):
-            guard = T(mod, s.test)
-            for st in s.body:
-                if isinstance(st, ast.Assign) and isinstance(st.targets[0], ast.Subscript):
-                    tl, sl = stagger.loc_array(st.targets[0]), stagger.loc_array(st.value)
-                    if tl and sl:
-                        tx, ty = stagger.selectors(tl[2], tl[1])
-                        sx, sy = stagger.selectors(sl[2], sl[1])
-                        # target logical y (own) == ny ; source logical y (neighbour) == 0
-                        ylog_t = stagger.first_of(ty) + stagger.YHALF[tl[1]]
-                        ylog_s = stagger.first_of(sy) + stagger.YHALF[sl[1]]
-                        copies.append((T(mod, tl[0]), tl[1], T(mod, sl[0]), sl[1], ylog_t, ylog_s))
+    guards = set()
+    for e in effects(gb.node):
+        if e.kind == "store" and isinstance(e.target, ast.Subscript):
+            tl, sl = stagger.loc_array(e.target), stagger.loc_array(e.value)
+            if tl and sl:
+                tx, ty = stagger.selectors(tl[2], tl[1])
+                sx, sy = stagger.selectors(sl[2], sl[1])
+                # target logical y (own) == ny ; source logical y (neighbour) == 0
+                ylog_t = stagger.first_of(ty) + stagger.YHALF[tl[1]]
+                ylog_s = stagger.first_of(sy) + stagger.YHALF[sl[1]]
+                copies.append((T(mod, tl[0]), tl[1], T(mod, sl[0]), sl[1], ylog_t, ylog_s))
+                guards.add(tuple(T(mod, c) if not isinstance(c, str) else c for c in e.conds))
+    guard = guards.pop()[-1] if len(guards) == 1 and next(iter(guards)) else None
     ok = guard == K('self.connections["upper"]isnotNone')
     want_c = {("self.Rxy", "ylow", "up.Rxy", "ylow"), ("self.Zxy", "ylow", "up.Zxy", "ylow"), ("self.Rxy", "corners", "up.Rxy", "corners"), ("self.Zxy", "corners", "up.Zxy", "corners")}
     got_c = {(a, b, c, d) for a, b, c, d, e, g2 in copies}
@@ -287,6 +351,13 @@ def r2_r3(prog, rep):
            str(copies), key="edge-copy")
     up = any(isinstance(s, ast.Assign) and T(mod, s) == K('up=self.getNeighbour("upper")') for s in ast.walk(gb.node))
     rep.ob("R3", "the values come from the upper neighbour", up, gb.site(), "", key="edge-copy/neighbour")
+
+
+from ..elements import element as _element_of, NoElement as _NoElement
+
+
+def _element(mod, fnode, it, env):
+    return _element_of(fnode, it, env)
 
 
 def r4_r5(prog, rep):
@@ -309,13 +380,20 @@ def r4_r5(prog, rep):
     loops2 = [n for n in walk_own(init.node) if isinstance(n, ast.For) and T(mod, n.iter) == K("perp_points_list[1:]")]
     ok = len(loops2) == 1 and K("fori,pointinenumerate(perp_points):self.contours[i].append(point)") in T(mod, loops2[0])
     rep.ob("R4", "points of every further perpendicular are appended to the contour of the same index", ok, init.site(), "", key="pairing/rest")
-    ok = K("iflen(self.psi_vals)!=2*self.nx+1:raiseValueError(") in src
+    from ..stores import effects
+    ok = any(e.kind == "raise" and e.conds and not isinstance(e.conds[-1], str) and T(mod, e.conds[-1]) in (K("len(self.psi_vals) != 2*self.nx+1"), K("2*self.nx+1 != len(self.psi_vals)"))
+             for e in effects(init.node))
     rep.ob("R4", "there is one psi value per radial point (2*nx+1)", ok, init.site(), "", key="pairing/length")
     g1 = prog.unique_func_assigning(["psixy"], MESH)
     ok = any(isinstance(s, ast.Assign) and is_self_attr(s.targets[0], "psixy") and T(mod, s.value) == K("self.meshParent.equilibrium.psi(self.Rxy,self.Zxy)") for s in walk_own(g1.node))
     rep.ob("R4", "psixy is the equilibrium's psi evaluated at the written Rxy, Zxy", ok, g1.site(), "", key="psixy")
     # start points: (index, point, psi at the point)
     if pm:
-        z = pm[0].args[1]
-        ok = T(mod, z) == K("zip(range(len(self.equilibriumRegion)), self.equilibriumRegion, [self.equilibriumRegion.psi(*p) for p in self.equilibriumRegion])")
-        rep.ob("R4", "each perpendicular starts at a point of the region's base contour with psi evaluated at that point", ok, init.site(pm[0]), "", key="pairing/start-points")
+        z = inline_temporaries(init.node, pm[0].args[1])
+        try:
+            el = _element(mod, init.node, z, {})
+            ok = el == ("<i>", "<self.equilibriumRegion[i]>", "self.equilibriumRegion.psi(*<self.equilibriumRegion[i]>)")
+            detail = "element i of the mapped iterable: %s" % (el,)
+        except _NoElement as e:
+            ok, detail = False, "unmodelled iterable: %s" % e
+        rep.ob("R4", "each perpendicular starts at a point of the region's base contour with psi evaluated at that point", ok, init.site(pm[0]), detail, key="pairing/start-points")
